@@ -146,7 +146,11 @@ class ASEEngine(EngineBase):
         traj_file = os.path.join(self.exe_dir, f"{name}.traj")
         traj = Trajectory(traj_file, "w")
         msg_file.write(f"# Trajectory file is: {traj_file}")
-        dyn = self.Integrator(atoms, **self.integrator_settings)
+        integrator_settings = dict(self.integrator_settings)
+        if self.Integrator is Langevin and hasattr(self, "rgen"):
+            # the thermostat noise comes from the job's engine stream
+            integrator_settings["rng"] = self.rgen
+        dyn = self.Integrator(atoms, **integrator_settings)
         atoms.calc = self.calc
         # we give the calculator object the system and order
         # information in case it is needed during force calculations
